@@ -10,6 +10,7 @@
 // Judged: the operations the statement lists.  Observed only (vf::observation): operator/, vector (+-*) dim,
 // to_vector/to_dim, map, bit_strings, inverse.
 #include <vf.hpp>
+#include <heavy.hpp>
 
 #include <fcppt/no_init.hpp>
 #include <fcppt/cast/static_cast_fun.hpp>
@@ -154,6 +155,8 @@ char const *tn()
     return "long";
   else if constexpr (std::is_same_v<T, short>)
     return "short";
+  else if constexpr (std::is_same_v<T, vf::heavy>)
+    return "heavy";
   else
     return "?";
 }
@@ -685,6 +688,14 @@ struct ml
         return S(mkrow(Rw)...);
       }(std::make_index_sequence<N>{});
       want_m(c, "matrix::row", fromrows, pa);
+      // the same rows as named NON-CONST lvalues, used for two constructions: the rows must survive the first one
+      auto rows = [&]<std::size_t... Rw>(std::index_sequence<Rw...>) {
+        return std::make_tuple(mkrow(Rw)...);
+      }(std::make_index_sequence<N>{});
+      S const first = std::apply([](auto &...r) { return S(r...); }, rows);
+      S const second = std::apply([](auto &...r) { return S(r...); }, rows);
+      want_m(c, "matrix::row", first, pa, "lvalue-rows");
+      want_m(c, "matrix::row", second, pa, "lvalue-rows-second-use");
     }
     // conversion between storage types, structure_cast
     {
@@ -2211,6 +2222,20 @@ void vf_slice_9()
 }
 #endif
 
+#if VF_IN_SLICE(10)
+// a scalar whose move is not a copy (common/heavy.hpp): a moved-from operand reads as 7777
+void vf_slice_10()
+{
+  random_matrices<vf::heavy, 2, true, true>("random");
+  random_matrices<vf::heavy, 3, true, true>("random");
+  random_vectors<vec_kind, vf::heavy, 3>();
+  random_vectors<dim_kind, vf::heavy, 2>();
+  vf::count("heavy/constructed", vf::heavy_stats().constructed);
+  vf::count("heavy/moved", vf::heavy_stats().moved);
+  vf::count("heavy/moved-from-reads(observed)", vf::heavy_stats().moved_from_reads);
+}
+#endif
+
 #if VF_SLICE < 0
 void vf_slice_0();
 void vf_slice_1();
@@ -2222,6 +2247,7 @@ void vf_slice_6();
 void vf_slice_7();
 void vf_slice_8();
 void vf_slice_9();
+void vf_slice_10();
 namespace
 {
 void body()
@@ -2253,6 +2279,7 @@ void body()
   vf_slice_7();
   vf_slice_8();
   vf_slice_9();
+  vf_slice_10();
 }
 }
 VF_MAIN(body)
